@@ -53,6 +53,9 @@ class EProg(pg.Prog):
         for new, old in list(zip(p.adts, self.adts)) + list(zip(p.traits, self.traits)) + list(zip(p.impls, self.impls)):
             new.upstream = getattr(old, "upstream", False)       # `#[upstream]`: declared in another crate
         p.order = list(self.order)
+        for k in ("tops", "leafs"):
+            if hasattr(self, k):
+                setattr(p, k, list(getattr(self, k)))
         return p
 
 
@@ -390,7 +393,53 @@ def shape_selfref(rng):
     return EProg(adts, traits, impls, "selfref")
 
 
-SHAPES = [shape_selfref, shape_chain, shape_diamond, shape_cycle, shape_params, shape_structs, shape_random, shape_random]
+
+def shape_branch(rng, exact=False):
+    """branching supertrait hierarchy of depth >= 2 whose second-level bounds are DIFFERENT traits:
+    A where Self: B, Self: D;  B where Self: C;  D where Self: E  (optionally a third branch / level).
+    The trait declaration order (= trait ids) is random."""
+    names = ["A", "B", "C", "D", "E"]
+    sup = {"A": ["B", "D"], "B": ["C"], "C": [], "D": ["E"], "E": []}
+    if not exact:
+        if rng.random() < 0.5:
+            names += ["F", "G"]
+            sup["A"] = sup["A"] + ["F"]
+            sup["F"] = ["G"]
+            sup["G"] = []
+        if rng.random() < 0.4:
+            names.append("H")
+            sup[rng.choice(["C", "E"])] = ["H"]
+            sup["H"] = []
+        if rng.random() < 0.3:
+            sup["A"] = list(reversed(sup["A"]))
+    order = list(names)
+    if not exact:
+        rng.shuffle(order)
+    traits = [ETrait(n, 0, [impl_atom(m, var(0)) for m in sup[n]]) for n in order]
+    adts = _std_adts(rng)
+    leafs = [n for n in names if not sup[n]]
+    impls = [pg.Impl(0, (n, (adt("S0"),))) for n in names if not exact and rng.random() < 0.5]
+    p = EProg(adts, traits, impls, "branch")
+    p.tops = ["A"] + [n for n in ("B", "D", "F") if n in names]
+    p.leafs = leafs
+    return p
+
+
+def branch_goals(p, rng=None):
+    """hypothesis on the top trait; conclusions: every trait, and conjunctions of second-level bounds"""
+    vs = (1,)
+    hs = ((("impl", "A", (var(1),)), ()),)
+    at = lambda n: ("atom", ("impl", n, (var(1),)))
+    out = [("forall", vs, ("if", hs, at(t.name))) for t in p.traits]
+    leafs = getattr(p, "leafs", [])
+    if len(leafs) >= 2:
+        out.append(("forall", vs, ("if", hs, ("and", tuple(at(n) for n in leafs)))))
+        out.append(("forall", vs, ("if", hs, ("and", (at(leafs[-1]), at(leafs[0]))))))
+    out.append(("forall", vs, ("if", ((("impl", "B", (var(1),)), ()), (("impl", "D", (var(1),)), ())), ("and", (at("C"), at("E"))))))
+    return out
+
+
+SHAPES = [shape_branch, shape_selfref, shape_chain, shape_diamond, shape_cycle, shape_params, shape_structs, shape_random, shape_random]
 
 
 def gen_program(rng, shapes=None) -> EProg:
@@ -483,7 +532,8 @@ class IfGoalGen:
         """hypothesis `X1: Tr` for one trait and the conclusion `X1: Tr'` for EVERY trait without
         parameters (plus FromEnv): the observable content of the elaboration."""
         vs = (1,)
-        t = self.rng.choice(self.p.traits)
+        tops = getattr(self.p, "tops", None)
+        t = self.p.trait(self.rng.choice(tops)) if tops and self.rng.random() < 0.8 else self.rng.choice(self.p.traits)
         args = [var(1)] + [self.ty(vs, 0) for _ in range(t.nextra)]
         hs = ((("impl", t.name, tuple(args)), ()),)
         out = []
@@ -780,6 +830,12 @@ def corpus_c06():
                           ("atom", ("impl", "Tr4", (var(1),)))))
     g1 = ("forall", (1,), ("if", ((("impl", "Tr1", (var(1), adt("S0"))), ()),), ("atom", ("impl", "Tr4", (var(1),)))))
     out.append((p, [g, g1]))
+    # branching two-level supertrait hierarchy: every second-level bound must be elaborated
+    for exact_order in (["A", "B", "C", "D", "E"], ["A", "C", "D", "E", "B"], ["E", "D", "C", "B", "A"]):
+        p = shape_branch(None, exact=True)
+        p.traits = [p.trait(n) for n in exact_order]
+        p.order = ([("adt", i) for i in range(len(p.adts))] + [("trait", i) for i in range(len(p.traits))])
+        out.append((p, branch_goals(p)))
     # hypotheses must not reach a later (or earlier) conjunct: if (X: Foo) { W<X>: Bar }, X: Foo
     p = EProg(_consts(2) + [EAdt("W", 1, [], [var(0)])], [ETrait("Foo"), ETrait("Bar")],
               [pg.Impl(1, ("Bar", (adt("W", var(0)),)), [("Foo", (var(0),))]), pg.Impl(0, ("Foo", (adt("S1"),)))], "corpus-conj")
